@@ -8,13 +8,14 @@ import logging
 import os
 import pickle
 import sys
+import uuid
 
 sys.path.insert(0, os.path.dirname(os.path.abspath(__file__)))
 import dlib  # noqa: E402
 
 logging.disable(logging.CRITICAL)
 
-from traits.api import (Undefined, Instance, Any, Dict, HasTraits, Int, List, Property, ReadOnly, Set, Str, TraitError,  # noqa: E402
+from traits.api import (Undefined, Instance, UUID, Any, Dict, HasTraits, Int, List, Property, ReadOnly, Set, Str, TraitError,  # noqa: E402
                         cached_property, observe, push_exception_handler, pop_exception_handler)
 from traits.trait_list_object import TraitListObject  # noqa: E402
 from traits.trait_dict_object import TraitDictObject  # noqa: E402
@@ -71,6 +72,9 @@ def make_class(case):
     if case.get("graph"):
         ns["inst"] = Instance(Child)
         ns["kids"] = List(Instance(Child))
+        ns["uid"] = UUID(can_init=True)                        # writable only until the object is initialised
+        ns["byobj"] = Dict(Instance(Child), Int, copy="deep")  # keyed by mutable hashable objects
+        ns["bystr"] = Dict(Str, Instance(Child))               # Dict carries no copy metadata of its own
 
         def _kids_items(self, event):
             GRAPH_LOG.append(("items", self))
@@ -230,9 +234,24 @@ def graph_probes(pool, o, c):
     def state(ch):
         return None if ch is None else (ch.v, list(ch.tags))
     # 900: the Instance child; 904: the children in the list
-    out.append(["inst", 900, c.inst is o.inst, state(c.inst) == state(o.inst) and type(c.inst) is Child])
-    out.append(["inst", 904, any(a is b for a in c.kids for b in o.kids),
+    def meta(name):
+        m = type(o).__base_traits__[name].copy
+        return m if m in ("ref", "shallow", "deep") else None
+    out.append(["inst", 900, meta("inst"), c.inst is o.inst, state(c.inst) == state(o.inst) and type(c.inst) is Child])
+    out.append(["inst", 904, meta("kids"), any(a is b for a in c.kids for b in o.kids),
                 [state(x) for x in c.kids] == [state(x) for x in o.kids]])
+    # 905: written at construction, read-only once the object is initialised: same value, not writable on the copy
+    out.append(["inst", 905, "deep", False, c.uid == o.uid])
+    out.append(["ro", 905, outcome(lambda: setattr(c, "uid", uuid.UUID(int=5)))])
+    # 906: a dict keyed by objects (copy="deep"): the copy's keys are copies, equal in state, and the copy's graph is
+    # consistent (the copy of kids[0] is the key of the copied dict)
+    okeys, ckeys = list(o.byobj.keys()), list(c.byobj.keys())
+    out.append(["inst", 906, meta("byobj"), any(a is b for a in ckeys for b in okeys),
+                sorted(state(k) + (v,) for k, v in c.byobj.items()) == sorted(state(k) + (v,) for k, v in o.byobj.items())
+                and any(k is c.kids[0] for k in ckeys)])
+    # 907: a dict of objects without copy metadata on the Dict trait
+    out.append(["inst", 907, meta("bystr"), c.bystr["a"] is o.bystr["a"],
+                {k: state(v) for k, v in c.bystr.items()} == {k: state(v) for k, v in o.bystr.items()}])
     # 901: the child's own container is live on the copy's child
     wi, wo = [], []
     hs = {}
@@ -286,7 +305,7 @@ def make_side_handlers(side, wi, wo):
 
 def run_case(case):
     K = make_class(case)
-    o = K()
+    o = K(uid=uuid.UUID(int=77)) if case.get("graph") else K()
     pool = Pool(o)
     hist_out = []
     for h in case["ops"]:
@@ -302,6 +321,8 @@ def run_case(case):
     if case.get("graph"):
         o.inst = Child(v=3, tags=["x"])
         o.kids = [Child(v=1, tags=["a"]), Child(v=2)]
+        o.byobj = {o.kids[0]: 1, Child(v=9): 2}
+        o.bystr = {"a": Child(v=4, tags=["t"])}
     op = case["op"]
     bt = K.__base_traits__
     meta = [[d["k"], bt["t%d" % d["k"]].copy, bool(bt["t%d" % d["k"]].transient)] for d in case["cls"]]
